@@ -301,12 +301,17 @@ impl Circuit {
                     expected_parties,
                 ));
             }
-            let input_wires: usize = input_gates.iter().sum();
+            let Some(input_wires) = checked_sum(&input_gates) else {
+                return Err(FromBristolError::MalformedLine(line_str));
+            };
+            if input_wires > wires_num {
+                return Err(FromBristolError::MalformedLine(line_str));
+            }
             (input_gates, input_wires)
         };
 
         // Parse output line
-        let (mut output_gates, num_output_wires) = {
+        let (mut output_gates, first_output_wire) = {
             let (parts, line_str) = parse_line(lines.next())?;
             if parts.len() < 2 {
                 return Err(FromBristolError::MalformedLine(line_str));
@@ -319,8 +324,14 @@ impl Circuit {
                     num_outputs,
                 ));
             }
-            let num_output_wires = gates_per_output.iter().sum::<usize>();
-            (vec![0; num_output_wires], num_output_wires)
+            let Some(num_output_wires) = checked_sum(&gates_per_output) else {
+                return Err(FromBristolError::MalformedLine(line_str));
+            };
+            // The outputs are the last wires of the circuit (there are at most `wires_num` of them):
+            let Some(first_output_wire) = wires_num.checked_sub(num_output_wires) else {
+                return Err(FromBristolError::MalformedLine(line_str));
+            };
+            (vec![0; num_output_wires], first_output_wire)
         };
 
         // Create the wires map to map the wires in the Bristol format to the wires in the Garble format.
@@ -342,7 +353,7 @@ impl Circuit {
             }
             let num_inputs: usize = parts[0].parse()?;
             let num_outputs: usize = parts[1].parse()?;
-            if num_outputs != 1 || parts.len() != num_inputs + 4 {
+            if num_outputs != 1 || Some(parts.len()) != num_inputs.checked_add(4) {
                 return Err(FromBristolError::MalformedLine(line_str));
             }
             let input_wires: Vec<usize> = parts[2..(2 + num_inputs)]
@@ -362,8 +373,8 @@ impl Circuit {
 
             // Check if the output wire is an output gate
 
-            if output_wire >= wires_num - num_output_wires {
-                output_gates[output_wire - (wires_num - num_output_wires)] = next_wire;
+            if output_wire >= first_output_wire {
+                output_gates[output_wire - first_output_wire] = next_wire;
             }
 
             wires_map[output_wire] = next_wire;
@@ -399,6 +410,13 @@ impl Circuit {
             output_gates,
         })
     }
+}
+
+/// Sums up the numbers of a line of the file, `None` if the sum does not fit into a `usize`.
+fn checked_sum(numbers: &[usize]) -> Option<usize> {
+    numbers
+        .iter()
+        .try_fold(0usize, |sum, n| sum.checked_add(*n))
 }
 
 /// Parses a line from the Bristol format file and returns a vector of usize.
